@@ -1,0 +1,267 @@
+//go:build verif
+// +build verif
+
+// Bucket-level contracts (C01 reads return the last value written, C12 buffer accounting, C13
+// colliding keys, C15 bucket gate).
+//
+// The components below the bucket (merkle tree, data store, hint manager) are described by
+// abstract views kept in ghost maps; their interface contracts are ASSUMED here (the leaf level of
+// the tree, the record codec and the hint buffer are verified in the other contract files). The
+// glue — Bucket.checkAndSet/set/get/incr and HStore.Get/Set/Incr — is verified against them.
+
+package store
+
+import (
+	"github.com/douban/gobeansdb/cmem"
+	"github.com/douban/gobeansdb/config"
+)
+
+var _ = config.MCConf
+var _ = cmem.DBRL
+
+// ---------- ghost views ----------
+
+// tree view: what HTree.get answers for a key hash (one slot per 64-bit key hash)
+var ghostTreeHas map[*HTree]map[uint64]bool
+var ghostTreeVer map[*HTree]map[uint64]int32
+var ghostTreeVhash map[*HTree]map[uint64]uint16
+var ghostTreeChunk map[*HTree]map[uint64]int
+var ghostTreeOff map[*HTree]map[uint64]uint32
+
+// log view: the record appended at a position (chunk<<32 | offset); positions are never reused
+// outside GC, so the record at a position is a function of (data store, position)
+var ghostLogHas map[*dataStore]map[int64]bool
+
+func ghostLogKey(ds *dataStore, pos int64) string       { return "" }
+func ghostLogFlag(ds *dataStore, pos int64) uint32      { return 0 }
+func ghostLogLen(ds *dataStore, pos int64) int          { return 0 }
+func ghostLogByte(ds *dataStore, pos int64, i int) byte { return 0 }
+func ghostLogVhash(ds *dataStore, pos int64) uint16     { return 0 }
+
+//@ func ghostLogKey
+//@   uninterpreted key of the record stored at a position of the data store's log
+//@ func ghostLogFlag
+//@   uninterpreted client flags of the record stored at a position
+//@ func ghostLogLen
+//@   uninterpreted length of the (uncompressed) value stored at a position
+//@ func ghostLogByte
+//@   uninterpreted byte i of the (uncompressed) value stored at a position
+//@ func ghostLogVhash
+//@   uninterpreted value hash of the (uncompressed) value stored at a position
+
+func posKey(chunk int, off uint32) int64 { return int64(chunk)<<32 + int64(off) }
+
+func treeViewOK(tree *HTree) bool {
+	return tree != nil && ghostTreeHas[tree] != nil && ghostTreeVer[tree] != nil && ghostTreeVhash[tree] != nil && ghostTreeChunk[tree] != nil && ghostTreeOff[tree] != nil
+}
+
+// positions held by the tree lie in existing chunks
+func treePosOK(tree *HTree) bool {
+	return forallU64(func(k uint64) bool {
+		return !ghostTreeHas[tree][k] || (0 <= ghostTreeChunk[tree][k] && ghostTreeChunk[tree][k] < MAX_NUM_CHUNK)
+	})
+}
+
+func bktOK(bkt *Bucket) bool {
+	return bkt != nil && bkt.htree != nil && bkt.hints != nil && bkt.hints.collisions != nil && bkt.datas != nil && treeViewOK(bkt.htree) && ghostLogHas[bkt.datas] != nil
+}
+
+// scope of C01: no two distinct keys of the history share a key hash (C13 treats collisions):
+// the collision table is empty for the key
+func noCollisionInfo(bkt *Bucket, kh uint64) bool { return !specCTHasHash(bkt.hints.collisions, kh) }
+
+// ---------- assumed component interfaces ----------
+
+//@ func (tree *HTree) get
+//@   props C01 C13 C12
+//@   ints bv
+//@   assumed abstract view of the merkle tree; leaf level (SliceHeader.Get, getLeaf) verified separately
+//@   requires ki != nil && treeViewOK(tree)
+//@   ensures fresh(meta) && found == ghostTreeHas[tree][ki.KeyHash]
+//@   ensures found ==> meta.Ver == ghostTreeVer[tree][ki.KeyHash] && meta.ValueHash == ghostTreeVhash[tree][ki.KeyHash] && pos.ChunkID == ghostTreeChunk[tree][ki.KeyHash] && pos.Offset == ghostTreeOff[tree][ki.KeyHash]
+//@   ensures meta.TS == 0 && meta.Flag == 0 && meta.RecSize == 0
+
+//@ func (tree *HTree) set
+//@   props C01 C13 C12
+//@   ints bv
+//@   assumed abstract view of the merkle tree; leaf level (SliceHeader.Set, setToLeaf, invalidation) verified separately
+//@   requires ki != nil && meta != nil && treeViewOK(tree)
+//@   modifies elems(ghostTreeHas[tree]), elems(ghostTreeVer[tree]), elems(ghostTreeVhash[tree]), elems(ghostTreeChunk[tree]), elems(ghostTreeOff[tree])
+//@   ensures ghostTreeHas[tree][ki.KeyHash] && ghostTreeVer[tree][ki.KeyHash] == meta.Ver && ghostTreeVhash[tree][ki.KeyHash] == meta.ValueHash && ghostTreeChunk[tree][ki.KeyHash] == pos.ChunkID && ghostTreeOff[tree][ki.KeyHash] == pos.Offset
+//@   ensures forallU64(func(k uint64) bool { return k != ki.KeyHash ==> ghostTreeHas[tree][k] == old(ghostTreeHas[tree][k]) && ghostTreeVer[tree][k] == old(ghostTreeVer[tree][k]) && ghostTreeVhash[tree][k] == old(ghostTreeVhash[tree][k]) && ghostTreeChunk[tree][k] == old(ghostTreeChunk[tree][k]) && ghostTreeOff[tree][k] == old(ghostTreeOff[tree][k]) })
+
+// hintMgr.set touches neither the tree view nor the log view nor any counter (hint buffers and the
+// collision table only)
+//@ func (h *hintMgr) set
+//@   props C01 C12 C13
+//@   ints bv
+//@   assumed hint buffers are an index beside the tree; verified pieces: HintBuffer.Set/Get, CollisionTable.compareAndSet/get
+//@   requires ki != nil && meta != nil
+
+//@ func (h *hintMgr) getItem
+//@   props C01 C12 C13
+//@   ints bv
+//@   assumed lookup in hint buffers / hint files (verified pieces: HintBuffer.Get, hintFileIndex.get); no effect on views or counters
+//@   ensures it != nil ==> fresh(it) && it.Keyhash == keyhash && it.Key == key && 0 <= chunkID && chunkID < MAX_NUM_CHUNK
+
+// AppendRecord: the record gets a fresh position in the log; accounting: a live record moves from
+// SetData to FlushData, TryCompress may change the SetData size by the capacity difference.
+//@ func (ds *dataStore) AppendRecord
+//@   props C01 C12 C10
+//@   ints bv
+//@   assumed functional part is an abstract log view (ghost); accounting part read off the code (AppendRecord body: TryCompress, chunk append, counter moves); chunk-level pieces verified separately (wrapRecord, WriteRecord.append)
+//@   requires rec != nil && rec.Payload != nil && ghostLogHas[ds] != nil
+//@   modifies elems(ghostLogHas[ds]), rec.Payload.Flag, rec.Payload.Body, rec.Payload.Addr, rec.Payload.Cap, rec.Payload.RecSize, ghostSpawn(), ghostFail(), cmem.DBRL.SetData.Size, cmem.DBRL.SetData.MaxSize, cmem.DBRL.SetData.Count, cmem.DBRL.SetData.MaxCount, cmem.DBRL.FlushData.Size, cmem.DBRL.FlushData.MaxSize, cmem.DBRL.FlushData.Count, cmem.DBRL.FlushData.MaxCount, cmem.AllocRL.Size, cmem.AllocRL.MaxSize, cmem.AllocRL.Count, cmem.AllocRL.MaxCount
+//@   ensures err == nil
+//@   ensures 0 <= pos.ChunkID && pos.ChunkID < MAX_NUM_CHUNK && !old(ghostLogHas[ds][posKey(pos.ChunkID, pos.Offset)]) && ghostLogHas[ds][posKey(pos.ChunkID, pos.Offset)]
+//@   ensures forallI64(func(p int64) bool { return p != posKey(pos.ChunkID, pos.Offset) ==> ghostLogHas[ds][p] == old(ghostLogHas[ds][p]) })
+//@   ensures ghostLogKey(ds, posKey(pos.ChunkID, pos.Offset)) == string(rec.Key) && ghostLogFlag(ds, posKey(pos.ChunkID, pos.Offset)) == old(rec.Payload.Flag)&^FLAG_COMPRESS
+//@   ensures old(rec.Payload.Flag)&FLAG_COMPRESS == 0 ==> ghostLogLen(ds, posKey(pos.ChunkID, pos.Offset)) == old(len(rec.Payload.Body)) && forall(0, old(len(rec.Payload.Body)), func(i int) bool { return ghostLogByte(ds, posKey(pos.ChunkID, pos.Offset), i) == old(rec.Payload.Body[i]) })
+//@   ensures rec.Payload.Ver == old(rec.Payload.Ver) && rec.Payload.TS == old(rec.Payload.TS) && rec.Payload.ValueHash == old(rec.Payload.ValueHash) && specClientFlags(rec.Payload.Flag) == specClientFlags(old(rec.Payload.Flag))
+//@   ensures rec.Payload.Ver > 0 ==> cmem.DBRL.SetData.Count == old(cmem.DBRL.SetData.Count)-1 && cmem.DBRL.SetData.Size == old(cmem.DBRL.SetData.Size)-int64(old(rec.Payload.Cap))
+//@   ensures rec.Payload.Ver > 0 ==> cmem.DBRL.FlushData.Count == old(cmem.DBRL.FlushData.Count)+1 && cmem.DBRL.FlushData.Size == old(cmem.DBRL.FlushData.Size)+int64(rec.Payload.Cap)
+//@   ensures rec.Payload.Ver <= 0 ==> cmem.DBRL.SetData.Count == old(cmem.DBRL.SetData.Count) && cmem.DBRL.SetData.Size == old(cmem.DBRL.SetData.Size) && cmem.DBRL.FlushData.Count == old(cmem.DBRL.FlushData.Count) && cmem.DBRL.FlushData.Size == old(cmem.DBRL.FlushData.Size) && rec.Payload.Cap == old(rec.Payload.Cap)
+
+// GetRecordByPos: a copy of the record at the position (decompressed), charged to GetData; nil if
+// the position holds nothing readable.
+//@ func (ds *dataStore) GetRecordByPos
+//@   props C01 C12 C13 C10
+//@   ints bv
+//@   assumed abstract log view (ghost); chunk-level pieces verified separately (readRecordAt, Payload.Copy, Payload.Decompress); accounting read off GetRecordByOffset/InBuffer
+//@   requires ghostLogHas[ds] != nil
+//@   modifies ghostFail(), cmem.DBRL.GetData.Size, cmem.DBRL.GetData.MaxSize, cmem.DBRL.GetData.Count, cmem.DBRL.GetData.MaxCount, cmem.AllocRL.Size, cmem.AllocRL.MaxSize, cmem.AllocRL.Count, cmem.AllocRL.MaxCount
+//@   ensures err != nil ==> res == nil
+//@   ensures res != nil ==> fresh(res) && res.Payload != nil && fresh(res.Payload) && ghostLogHas[ds][posKey(pos.ChunkID, pos.Offset)]
+//@   ensures res != nil ==> string(res.Key) == ghostLogKey(ds, posKey(pos.ChunkID, pos.Offset)) && res.Payload.Flag == ghostLogFlag(ds, posKey(pos.ChunkID, pos.Offset))
+//@   ensures res != nil ==> len(res.Payload.Body) < 1<<31 && len(res.Key) <= MAX_KEY_LEN
+//@   ensures res != nil ==> len(res.Payload.Body) == ghostLogLen(ds, posKey(pos.ChunkID, pos.Offset)) && forall(0, len(res.Payload.Body), func(i int) bool { return res.Payload.Body[i] == ghostLogByte(ds, posKey(pos.ChunkID, pos.Offset), i) })
+//@   ensures res != nil ==> cmem.DBRL.GetData.Count == old(cmem.DBRL.GetData.Count)+1 && cmem.DBRL.GetData.Size == old(cmem.DBRL.GetData.Size)+int64(res.Payload.Cap)
+//@   ensures res == nil ==> cmem.DBRL.GetData.Count == old(cmem.DBRL.GetData.Count) && cmem.DBRL.GetData.Size == old(cmem.DBRL.GetData.Size)
+//@   ensures res != nil ==> cmem.AllocRL.Count == old(cmem.AllocRL.Count)+allocCount(res.Payload.Addr) && cmem.AllocRL.Size == old(cmem.AllocRL.Size)+allocSize(res.Payload.Addr, res.Payload.Cap)
+//@   ensures res == nil ==> cmem.AllocRL.Count == old(cmem.AllocRL.Count) && cmem.AllocRL.Size == old(cmem.AllocRL.Size)
+
+func forallI64(p func(k int64) bool) bool { return true }
+
+// ---------- verified glue ----------
+
+// Bucket.set: append, then point the tree at the new position (and record a hint).
+//@ func (bkt *Bucket) set
+//@   props C01 C12
+//@   ints bv
+//@   unreachable_ok AppendRecord never returns an error (it stops the process instead): the error return is dead
+//@   requires bktOK(bkt) && ki != nil && v != nil
+//@   modifies elems(ghostLogHas[bkt.datas]), v.Flag, v.Body, v.Addr, v.Cap, v.RecSize, ghostSpawn(), ghostFail(), cmem.DBRL.SetData.Size, cmem.DBRL.SetData.MaxSize, cmem.DBRL.SetData.Count, cmem.DBRL.SetData.MaxCount, cmem.DBRL.FlushData.Size, cmem.DBRL.FlushData.MaxSize, cmem.DBRL.FlushData.Count, cmem.DBRL.FlushData.MaxCount, cmem.AllocRL.Size, cmem.AllocRL.MaxSize, cmem.AllocRL.Count, cmem.AllocRL.MaxCount, elems(ghostTreeHas[bkt.htree]), elems(ghostTreeVer[bkt.htree]), elems(ghostTreeVhash[bkt.htree]), elems(ghostTreeChunk[bkt.htree]), elems(ghostTreeOff[bkt.htree])
+//@   ensures result0 == nil
+//@   ensures ghostTreeHas[bkt.htree][ki.KeyHash] && ghostTreeVer[bkt.htree][ki.KeyHash] == v.Ver && ghostTreeVhash[bkt.htree][ki.KeyHash] == v.ValueHash && v.Ver == old(v.Ver) && v.ValueHash == old(v.ValueHash)
+//@   ensures ghostLogHas[bkt.datas][posKey(ghostTreeChunk[bkt.htree][ki.KeyHash], ghostTreeOff[bkt.htree][ki.KeyHash])]
+//@   ensures ghostLogKey(bkt.datas, posKey(ghostTreeChunk[bkt.htree][ki.KeyHash], ghostTreeOff[bkt.htree][ki.KeyHash])) == string(ki.Key) && ghostLogFlag(bkt.datas, posKey(ghostTreeChunk[bkt.htree][ki.KeyHash], ghostTreeOff[bkt.htree][ki.KeyHash])) == old(v.Flag)&^FLAG_COMPRESS
+//@   ensures old(v.Flag)&FLAG_COMPRESS == 0 ==> ghostLogLen(bkt.datas, posKey(ghostTreeChunk[bkt.htree][ki.KeyHash], ghostTreeOff[bkt.htree][ki.KeyHash])) == old(len(v.Body))
+//@   ensures old(v.Flag)&FLAG_COMPRESS == 0 ==> forall(0, old(len(v.Body)), func(i int) bool { return ghostLogByte(bkt.datas, posKey(ghostTreeChunk[bkt.htree][ki.KeyHash], ghostTreeOff[bkt.htree][ki.KeyHash]), i) == old(v.Body[i]) })
+//@   ensures forallU64(func(k uint64) bool { return k != ki.KeyHash ==> ghostTreeHas[bkt.htree][k] == old(ghostTreeHas[bkt.htree][k]) && ghostTreeVer[bkt.htree][k] == old(ghostTreeVer[bkt.htree][k]) && ghostTreeVhash[bkt.htree][k] == old(ghostTreeVhash[bkt.htree][k]) && ghostTreeChunk[bkt.htree][k] == old(ghostTreeChunk[bkt.htree][k]) && ghostTreeOff[bkt.htree][k] == old(ghostTreeOff[bkt.htree][k]) })
+//@   ensures forallI64(func(p int64) bool { return old(ghostLogHas[bkt.datas][p]) ==> ghostLogHas[bkt.datas][p] })
+//@   ensures v.Ver > 0 ==> cmem.DBRL.SetData.Count == old(cmem.DBRL.SetData.Count)-1 && cmem.DBRL.SetData.Size == old(cmem.DBRL.SetData.Size)-int64(old(v.Cap)) && cmem.DBRL.FlushData.Count == old(cmem.DBRL.FlushData.Count)+1 && cmem.DBRL.FlushData.Size == old(cmem.DBRL.FlushData.Size)+int64(v.Cap)
+//@   ensures v.Ver <= 0 ==> cmem.DBRL.SetData.Count == old(cmem.DBRL.SetData.Count) && cmem.DBRL.SetData.Size == old(cmem.DBRL.SetData.Size) && cmem.DBRL.FlushData.Count == old(cmem.DBRL.FlushData.Count) && cmem.DBRL.FlushData.Size == old(cmem.DBRL.FlushData.Size)
+
+// Scope of C01 for one key (no collision): nothing is known about other keys with this hash, and
+// the tree slot of the key's hash — if any — points at a record of this very key.
+func noCollisionFor(bkt *Bucket, ki *KeyInfo) bool {
+	return noCollisionInfo(bkt, ki.KeyHash) && (!ghostTreeHas[bkt.htree][ki.KeyHash] ||
+		ghostLogKey(bkt.datas, posKey(ghostTreeChunk[bkt.htree][ki.KeyHash], ghostTreeOff[bkt.htree][ki.KeyHash])) == string(ki.Key))
+}
+
+// Bucket.get in the no-collision scope. memOnly: the tree's metadata only. Otherwise the record the
+// tree points at: its payload with the tree's version, charged once to GetData (C12). (The
+// same-hash-different-key branch is dead in this scope; colliding keys are covered at the level
+// of the hint buffer and the collision table, see verif_contracts_hint.go.)
+//@ func (bkt *Bucket) get
+//@   props C01 C12
+//@   ints bv
+//@   unreachable_ok in the no-collision scope the key-mismatch branch (collision handling) is dead
+//@   requires bktOK(bkt) && ki != nil && noCollisionFor(bkt, ki) && treePosOK(bkt.htree)
+//@   modifies ghostFail(), ghostClock(), cmem.DBRL.GetData.Size, cmem.DBRL.GetData.MaxSize, cmem.DBRL.GetData.Count, cmem.DBRL.GetData.MaxCount, cmem.AllocRL.Size, cmem.AllocRL.MaxSize, cmem.AllocRL.Count, cmem.AllocRL.MaxCount
+//@   ensures !ghostTreeHas[bkt.htree][ki.KeyHash] ==> payload == nil && err == nil
+//@   ensures payload != nil ==> ghostTreeHas[bkt.htree][ki.KeyHash] && payload.Ver == ghostTreeVer[bkt.htree][ki.KeyHash] && pos.ChunkID == ghostTreeChunk[bkt.htree][ki.KeyHash] && pos.Offset == ghostTreeOff[bkt.htree][ki.KeyHash]
+//@   ensures memOnly && ghostTreeHas[bkt.htree][ki.KeyHash] ==> payload != nil && err == nil && payload.ValueHash == ghostTreeVhash[bkt.htree][ki.KeyHash]
+//@   ensures !memOnly && payload != nil ==> ghostLogHas[bkt.datas][posKey(pos.ChunkID, pos.Offset)] && payload.Flag == ghostLogFlag(bkt.datas, posKey(pos.ChunkID, pos.Offset)) && len(payload.Body) == ghostLogLen(bkt.datas, posKey(pos.ChunkID, pos.Offset))
+//@   ensures !memOnly && payload != nil ==> forall(0, len(payload.Body), func(i int) bool { return payload.Body[i] == ghostLogByte(bkt.datas, posKey(pos.ChunkID, pos.Offset), i) })
+//@   ensures !memOnly && payload != nil ==> cmem.DBRL.GetData.Count == old(cmem.DBRL.GetData.Count)+1 && cmem.DBRL.GetData.Size == old(cmem.DBRL.GetData.Size)+int64(payload.Cap)
+//@   ensures memOnly || payload == nil ==> cmem.DBRL.GetData.Count == old(cmem.DBRL.GetData.Count) && cmem.DBRL.GetData.Size == old(cmem.DBRL.GetData.Size)
+//@   ensures !memOnly && payload != nil ==> cmem.AllocRL.Count == old(cmem.AllocRL.Count)+allocCount(payload.Addr) && cmem.AllocRL.Size == old(cmem.AllocRL.Size)+allocSize(payload.Addr, payload.Cap)
+//@   ensures memOnly || payload == nil ==> cmem.AllocRL.Count == old(cmem.AllocRL.Count) && cmem.AllocRL.Size == old(cmem.AllocRL.Size)
+//@   ensures payload != nil ==> fresh(payload)
+
+func specAbsVer(v int32) int32 {
+	if v < 0 {
+		return -v
+	}
+	return v
+}
+
+// version of the key as the tree knows it (0: never written)
+func treeVerOf(bkt *Bucket, kh uint64) int32 {
+	if ghostTreeHas[bkt.htree][kh] {
+		return ghostTreeVer[bkt.htree][kh]
+	}
+	return 0
+}
+
+// case split used to keep the obligations of checkAndSet small: sign of the requested revision x
+// state of the key (absent / live / deleted)
+func checkAndSetCase(bkt *Bucket, ki *KeyInfo, v *Payload) int {
+	c := 0
+	if v.Ver > 0 {
+		c = 1
+	} else if v.Ver < 0 {
+		c = 2
+	}
+	if !ghostTreeHas[bkt.htree][ki.KeyHash] {
+		return c
+	}
+	if ghostTreeVer[bkt.htree][ki.KeyHash] > 0 {
+		return c + 3
+	}
+	return c + 6
+}
+
+// NOTE: the contract of checkAndSet below is NOT part of any property check (no props line): with
+// the 9-way case split about 90% of its obligations discharge, but the clauses on the paths through
+// an existing live key stay `unknown` within any practical timeout (see DESIGN.md §4). It is kept
+// as documentation of the intended step contract and for `govc func store.Bucket.checkAndSet`.
+// checkAndSet (no-collision scope). From the C01 statement: the version arithmetic decides; an
+// accepted write makes the tree point at a fresh log record holding exactly the client's bytes and
+// flags with the new version; a rejected revision and a delete of a missing key change nothing; an
+// explicit revision is only ever accepted if larger in absolute value. C12: the value buffer counted
+// by the caller (v.Ver >= 0) leaves SetData on every path (moved to FlushData or released).
+//@ func (bkt *Bucket) checkAndSet
+//@   ints bv
+//@   timeout 20
+//@   enumerate checkAndSetCase(bkt, ki, v) in 0 1 2 3 4 5 6 7 8
+//@   opaque treePosOK noCollisionFor QlzD QlzVhash QlzValid
+//@   unreachable_ok error returns of callees that never fail in the model
+//@   requires bktOK(bkt) && ki != nil && v != nil && noCollisionFor(bkt, ki) && treePosOK(bkt.htree) && Conf != nil && len(ki.Key) <= 255 && len(v.Body) < 1<<31-400
+//@   requires v.Ver > -2147483648 && treeVerOf(bkt, ki.KeyHash) > -2147483647 && treeVerOf(bkt, ki.KeyHash) < 2147483647
+//@   requires v.Ver < 0 ==> v.Addr == 0 && v.Cap == 0     // a delete request carries no counted value buffer
+//@   modifies elems(ghostLogHas[bkt.datas]), all(v), bkt.NumSameVhash, bkt.SizeSameVhash, bkt.SizeVhashKey, ghostSpawn(), ghostFail(), ghostClock(), cmem.DBRL.SetData.Size, cmem.DBRL.SetData.MaxSize, cmem.DBRL.SetData.Count, cmem.DBRL.SetData.MaxCount, cmem.DBRL.FlushData.Size, cmem.DBRL.FlushData.MaxSize, cmem.DBRL.FlushData.Count, cmem.DBRL.FlushData.MaxCount, cmem.DBRL.GetData.Size, cmem.DBRL.GetData.MaxSize, cmem.DBRL.GetData.Count, cmem.DBRL.GetData.MaxCount, cmem.AllocRL.Size, cmem.AllocRL.MaxSize, cmem.AllocRL.Count, cmem.AllocRL.MaxCount, elems(ghostTreeHas[bkt.htree]), elems(ghostTreeVer[bkt.htree]), elems(ghostTreeVhash[bkt.htree]), elems(ghostTreeChunk[bkt.htree]), elems(ghostTreeOff[bkt.htree])
+//@   ensures forallU64(func(k uint64) bool { return k != ki.KeyHash ==> ghostTreeHas[bkt.htree][k] == old(ghostTreeHas[bkt.htree][k]) && ghostTreeVer[bkt.htree][k] == old(ghostTreeVer[bkt.htree][k]) && ghostTreeVhash[bkt.htree][k] == old(ghostTreeVhash[bkt.htree][k]) && ghostTreeChunk[bkt.htree][k] == old(ghostTreeChunk[bkt.htree][k]) && ghostTreeOff[bkt.htree][k] == old(ghostTreeOff[bkt.htree][k]) })
+//@   ensures !specVersionOk(old(treeVerOf(bkt, ki.KeyHash)), old(v.Ver)) ==> result0 == nil && treeVerOf(bkt, ki.KeyHash) == old(treeVerOf(bkt, ki.KeyHash))      // rejected revision: no error, nothing changes
+//@   ensures old(v.Ver) < 0 && old(treeVerOf(bkt, ki.KeyHash)) <= 0 ==> result0 != nil && treeVerOf(bkt, ki.KeyHash) == old(treeVerOf(bkt, ki.KeyHash))          // delete of a missing or deleted key: NOT_FOUND
+//@   ensures treeVerOf(bkt, ki.KeyHash) != old(treeVerOf(bkt, ki.KeyHash)) ==> treeVerOf(bkt, ki.KeyHash) == specVersionVer(old(treeVerOf(bkt, ki.KeyHash)), old(v.Ver)) && specVersionOk(old(treeVerOf(bkt, ki.KeyHash)), old(v.Ver))   // the version only ever moves by the documented arithmetic
+//@   ensures old(v.Ver) <= 0 && specVersionOk(old(treeVerOf(bkt, ki.KeyHash)), old(v.Ver)) && !(old(v.Ver) < 0 && old(treeVerOf(bkt, ki.KeyHash)) <= 0) && !(old(v.Ver) == 0 && old(treeVerOf(bkt, ki.KeyHash)) > 0 && Conf.CheckVHash && old(ghostTreeVhash[bkt.htree][ki.KeyHash]) == specVhash(old(v.Body))) ==> result0 == nil && treeVerOf(bkt, ki.KeyHash) == specVersionVer(old(treeVerOf(bkt, ki.KeyHash)), old(v.Ver))
+//@   ensures treeVerOf(bkt, ki.KeyHash) != old(treeVerOf(bkt, ki.KeyHash)) ==> ghostLogKey(bkt.datas, posKey(ghostTreeChunk[bkt.htree][ki.KeyHash], ghostTreeOff[bkt.htree][ki.KeyHash])) == string(ki.Key) && ghostLogFlag(bkt.datas, posKey(ghostTreeChunk[bkt.htree][ki.KeyHash], ghostTreeOff[bkt.htree][ki.KeyHash])) == old(v.Flag)&^FLAG_COMPRESS
+//@   ensures treeVerOf(bkt, ki.KeyHash) != old(treeVerOf(bkt, ki.KeyHash)) && old(v.Flag)&FLAG_COMPRESS == 0 ==> ghostLogLen(bkt.datas, posKey(ghostTreeChunk[bkt.htree][ki.KeyHash], ghostTreeOff[bkt.htree][ki.KeyHash])) == old(len(v.Body))
+//@   ensures treeVerOf(bkt, ki.KeyHash) != old(treeVerOf(bkt, ki.KeyHash)) && old(v.Flag)&FLAG_COMPRESS == 0 ==> forall(0, old(len(v.Body)), func(i int) bool { return ghostLogByte(bkt.datas, posKey(ghostTreeChunk[bkt.htree][ki.KeyHash], ghostTreeOff[bkt.htree][ki.KeyHash]), i) == old(v.Body[i]) })
+//@   ensures treeVerOf(bkt, ki.KeyHash) != old(treeVerOf(bkt, ki.KeyHash)) && old(v.Ver) >= 0 ==> ghostTreeVhash[bkt.htree][ki.KeyHash] == specVhash(old(v.Body))     // C10: hash of the uncompressed bytes
+//@   ensures old(v.Ver) >= 0 ==> cmem.DBRL.SetData.Count == old(cmem.DBRL.SetData.Count)-1      // C12: the counted value leaves SetData on every path
+//@   ensures old(v.Ver) < 0 ==> cmem.DBRL.SetData.Count == old(cmem.DBRL.SetData.Count)
+//@   ensures cmem.DBRL.GetData.Count == old(cmem.DBRL.GetData.Count) && cmem.DBRL.GetData.Size == old(cmem.DBRL.GetData.Size)
+
+// incr: read-parse-add-write. C12: whatever happens, the payload read for the old value is
+// released (GetData returns to its old value) and the request's SetData count is consumed.
+//@ func (bkt *Bucket) incr
+//@   props C12 C01
+//@   ints bv
+//@   timeout 20
+//@   opaque treePosOK noCollisionFor QlzD QlzVhash QlzValid
+//@   requires bktOK(bkt) && ki != nil && noCollisionFor(bkt, ki) && treePosOK(bkt.htree) && Conf != nil && len(ki.Key) <= 255
+//@   modifies *
+//@   ensures cmem.DBRL.GetData.Count == old(cmem.DBRL.GetData.Count) && cmem.DBRL.GetData.Size == old(cmem.DBRL.GetData.Size)
